@@ -444,6 +444,11 @@ class StmtMixin(ExecBase):
             ys = getattr(ctx, "yield_nodes", [])
             ordinal = ys.index(y) if y in ys else -1
             elem = st1.out.elem
+            c = getattr(ctx, "contract", None)
+            if c is not None and c.yields and c.yields.get("abstract"):
+                # the ghost output records an abstraction of the yielded object (e.g. (coord, payload) of a CoordPayload)
+                v = self.spec_val(c.yields["abstract"], st1, ctx, {"yielded": v})
+            v = self.strip_opts(st1, v, elem, y.lineno)
             if not fits(v, elem):
                 raise Unsupported("yielded value %r does not fit declared element type %r (line %d)" % (v, elem, y.lineno))
             st1.out = seq_append(st1.out, v)
@@ -451,6 +456,15 @@ class StmtMixin(ExecBase):
         if y.value is None:
             return after(st, VNone())
         self.ev(y.value, st, ctx, after)
+
+    def strip_opts(self, st, v, ty, line):
+        """Where a non-option is declared and an option is supplied: prove it is not None and use its value."""
+        if isinstance(v, VOpt) and ty.k != "opt":
+            self.oblige(st, "line%s::value-not-None" % line, z3.Not(v.isnone), line)
+            return self.strip_opts(st, v.val, ty, line)
+        if isinstance(v, VTuple) and ty.k == "tuple" and len(v.items) == len(ty.a):
+            return VTuple([self.strip_opts(st, x, a, line) for x, a in zip(v.items, ty.a)])
+        return v
 
     def after_yield(self, st, ctx, ordinal, v, node, k):
         k(st)
@@ -506,7 +520,15 @@ class StmtMixin(ExecBase):
             st.heap[key] = z3.Const(fresh_name("H!" + key), st.heap[key].sort())
         st.heap_epoch = fresh_name("epoch")
 
+    def coerce_loop_locals(self, st, spec):
+        """Give locals with a declared loop type that representation (e.g. None -> opt[int]) before the entry check."""
+        for n, ty in (spec.get("types", {}) if spec else {}).items():
+            ty = parse_ty(ty)
+            if n in st.store and fits(st.store[n], ty):
+                st.store[n] = coerce(st.store[n], ty)
+
     def check_invariants(self, st, ctx, spec, ordinal, phase, line, env_extra):
+        self.coerce_loop_locals(st, spec)
         for j, inv in enumerate(spec.get("invariant", [])):
             t = self.spec_bool(inv, st, ctx, env_extra)
             self.oblige(st, "loop[%d]::%s::inv#%d" % (ordinal, phase, j), t, line, kind="invariant")
@@ -521,6 +543,7 @@ class StmtMixin(ExecBase):
         ordinal, spec = self.loop_spec(ctx, s)
         if spec is None:
             raise StaleContract("%s::%s: while loop (ordinal %s, line %d) has no invariant" % (self.file, self.qual, ordinal, s.lineno))
+        self.coerce_loop_locals(st, spec)
         self.check_invariants(st, ctx, spec, ordinal, "entry", s.lineno, {})
         entry = st.fork()
         head = st.fork()
@@ -616,6 +639,7 @@ class StmtMixin(ExecBase):
             if spec is None:
                 raise StaleContract("%s::%s: for loop (ordinal %s, line %d) has no invariant" % (self.file, self.qual, ordinal, s.lineno))
             iv = "_i%d" % ordinal
+            self.coerce_loop_locals(st1, spec)
             self.check_invariants(st1, ctx, spec, ordinal, "entry", s.lineno, {iv: VInt(0), "_n%d" % ordinal: VInt(cnt)})
             entry = st1.fork()
             head = st1.fork()
